@@ -69,6 +69,8 @@ class OtoDriver(Base):
                 v.append("dict")
                 if self.strkeys and hashable and op["arg"]:
                     v.append("kw")
+                    if n == "update" and len(op["arg"]) >= 2:
+                        v.append("pairs+kw")        # one call mixing pairs and keyword items
             return v
         if n == "ior":
             return ["pairs", "dict"] if distinct else ["pairs"]
@@ -102,6 +104,9 @@ class OtoDriver(Base):
             elif n == "update":
                 if variant == "kw":
                     tgt.update((), **dict(self.pairs(op["arg"])))
+                elif variant == "pairs+kw":
+                    ps_ = self.pairs(op["arg"])
+                    tgt.update(ps_[:len(ps_) // 2], **dict(ps_[len(ps_) // 2:]))
                 else:
                     tgt.update(self.form(op["arg"], variant))
             elif n == "ior":
